@@ -91,6 +91,7 @@ type deferred struct {
 	fn   Value
 	args []Value
 	pos  token.Pos
+	desc string
 }
 
 type Frame struct {
@@ -143,6 +144,9 @@ type VM struct {
 	nameCtr   map[string]int
 	poolSeq   int
 	noPreempt int
+	lazyMode  bool
+	lzRoot    *ssa.Function
+	lz        *lazyState
 	switches  int
 }
 
@@ -169,6 +173,13 @@ func (fr *Frame) get(v ssa.Value) Value {
 	}
 	if i, ok := fr.info.regs[v]; ok {
 		r := fr.env[i]
+		if lz, isL := r.(Lazy); isL {
+			r = fr.g.mat(lz.t)
+			if lz2, again := r.(Lazy); again { // single-element tuple unwrap
+				r = fr.g.mat(lz2.t)
+			}
+			fr.env[i] = r
+		}
 		if p, isP := r.(Poison); isP && fr.g.vm.lenient == 0 {
 			panic(unsupported("use of poisoned value: " + p.why))
 		}
@@ -187,6 +198,12 @@ func (vm *VM) globalAddr(g *ssa.Global) *Value {
 	}
 	var cell Value
 	t := g.Type().(*types.Pointer).Elem()
+	if vm.lazyMode {
+		p := new(Value)
+		*p = Lazy{t}
+		vm.globals[g] = p
+		return p
+	}
 	if g.Pkg != nil && !vm.pkgInitialised(g.Pkg) {
 		cell = zeroLenient(t)
 		// globals of packages whose init was not run: zero for plain data is
@@ -273,6 +290,12 @@ func (g *G) curFn() string {
 // ---- calls
 
 func (g *G) call(fn Value, args []Value, pos token.Pos) Value {
+	if g.vm.lazyMode {
+		if gf, ok := fn.(goFunc); ok {
+			return gf(g)
+		}
+		return g.lazyCall(fn, args, pos, "")
+	}
 	switch fn := fn.(type) {
 	case *ssa.Function:
 		if fn == nil {
@@ -344,6 +367,9 @@ func (g *G) runFrame(fr *Frame) {
 		b := fr.block
 		fr.visits[b.Index]++
 		if fr.visits[b.Index] > unwind {
+			if vm.lazyMode {
+				panic(pathAbort{kind: "CUT", msg: "loop bound"})
+			}
 			panic(pathAbort{kind: "UNWIND", msg: fmt.Sprintf("block %d of %s visited > %d times (%s)", b.Index, fr.fn, unwind, vm.posStr(fr.pos))})
 		}
 		instrs := b.Instrs
@@ -384,7 +410,9 @@ func (g *G) runFrame(fr *Frame) {
 				traceInstr(g, fr, ins)
 			}
 			var k int
-			if vm.lenient > 0 {
+			if vm.lazyMode {
+				k = g.visitLazy(fr, ins)
+			} else if vm.lenient > 0 {
 				k = g.visitLenient(fr, ins)
 			} else {
 				k = g.visit(fr, ins)
